@@ -384,7 +384,7 @@ impl AsnDefWriter {
 
                 let virtual_field_name = Self::vec_virtual_field_name(field.name());
                 let constraint_type_name =
-                    Self::virtual_constraint_type_name(constraint_type_name, "Values");
+                    Self::virtual_constraint_type_name(constraint_type_name, "_Values");
                 Self::write_constraint_type_decl(scope, &constraint_type_name);
 
                 self.write_field_constraint(
@@ -425,7 +425,7 @@ impl AsnDefWriter {
 
                 let virtual_field_name = Self::default_virtual_field_name(field.name());
                 let constraint_type_name =
-                    Self::virtual_constraint_type_name(constraint_type_name, "Value");
+                    Self::virtual_constraint_type_name(constraint_type_name, "_Value");
                 Self::write_constraint_type_decl(scope, &constraint_type_name);
 
                 self.write_field_constraint(
@@ -464,11 +464,12 @@ impl AsnDefWriter {
     }
 
     fn vec_virtual_field_name(field_name: &str) -> String {
-        field_name.to_string() + "Values"
+        // the underscore keeps it apart from a component that is called `<name>-values`
+        field_name.to_string() + "_Values"
     }
 
     fn default_virtual_field_name(field_name: &str) -> String {
-        field_name.to_string() + "Value"
+        field_name.to_string() + "_Value"
     }
 
     fn write_sequence_or_set_constraint(
